@@ -276,6 +276,16 @@ def gen(tier, seed):
                                 toks = [rng.choice(core) for _ in range(n)]
                                 toks[pos] = o
                                 cases.append(mk(layout, n, kind, default, toks))
+    # ONE bracketed literal whose length is exactly n (and n-1, n+1): must reach every destination whole
+    for layout in ("flat", "nested", "nested_noown", "twice"):
+        for n in LAYOUT_NS[layout]:
+            for kind, mkitems, dfl in (("List[int]", lambda k: [str(10 + j) for j in range(k)], L(I(1), I(2))),
+                                       ("List[str]", lambda k: [repr("w%d" % j) for j in range(k)], L(S("a"), S("b"))),
+                                       ("Tuple[int,...]", lambda k: [str(10 + j) for j in range(k)], T(I(1), I(2)))):
+                for k in (n, n - 1, n + 1):
+                    for o, c in (("[", "]"), ("(", ")")):
+                        inner = ",".join(mkitems(k)) + ("," if (o == "(" and k == 1) else "")
+                        cases.append(mk(layout, n, kind, dfl, [o + inner + c]))
     # add_arguments(default=...) on every non-empty subset of the destinations (flat layout)
     expl = {
         "int": (I(5), [I(10), I(11), I(12), I(13)], ["1", "2", "3", "4"]),
@@ -612,6 +622,9 @@ def signature(case, obs, reason):
         if o == ("raise", "TypeError"):
             return "container:bare-token:TypeError"
         if o[0] == "ok" and e[0] == "be" and any(v[0] not in ("list", "tuple") for v in o[1]):
+            if all(l is not None and l[0] == "seq" for l in obs["lits"]):
+                # every token is a bracketed literal, yet a destination received a bare element
+                return "container:bracketed-literal:dealt-elementwise"
             return "container:bare-token:scalar-delivered"
         if o[0] == "ok" and e[0] == "reject" and kind == "Tuple[int,int]":
             return "tuple:arity-unchecked:accepted"
